@@ -24,12 +24,12 @@ func init() {
 	ev.Register(&ev.Check{
 		ID:             "C12",
 		Level:          "model_checking",
-		Rule:           "stateless exploration (CHESS-style DFS over choice prefixes) of the REAL library under a controlled scheduler injected by a build overlay (every sync.Once/Mutex/RWMutex/Pool operation of the library is a scheduling point; exactly one test goroutine runs at a time): scenarios S1 (uncompiled shared schema with types/enum, 2 threads x every ordered pair of ops from {Check, Validate, Example, GetAST, Len, UsedUserTypes}, 3 threads x 1 op), S2 (2 threads x 2 ops: first use + reuse), S3 (two root schemas sharing one added-type object using allOf + or, compiled concurrently), S4 (shared compiled schema validated by 2 threads while a third creates, compiles and Example()s a private schema), S5 (enum rule / regex type first use), S6 (2 and 3 goroutines each creating, loading, compiling and using private schemas: only the global pools are shared), S7 (first use of a shared schema WITHOUT added types, valid and invalid: its first load is raced as well); ALL interleavings with <= 2 preemptions (3 threads: <= 1; thorough: 3 / 2) crossed with pool-answer deviations (<= 1). Oracle per execution: every call returns exactly its sequential result; every Once body ran once; no deadlock/livelock; the race detector (running as per-execution happens-before monitor: the scheduler's hand-off is invisible to it) reports nothing. states = distinct decision points visited, transitions = scheduling decisions taken, traces_validated_against_impl = executions (each one is an execution of the implementation).",
+		Rule:           "stateless exploration (CHESS-style DFS over choice prefixes) of the REAL library under a controlled scheduler injected by a build overlay (every sync.Once/Mutex/RWMutex/Pool operation of the library is a scheduling point; exactly one test goroutine runs at a time): scenarios S1 (uncompiled shared schema with types/enum, 2 threads x every ordered pair of ops from {Check, Validate, Example, GetAST, Len, UsedUserTypes}, 3 threads x 1 op), S2 (2 threads x 2 ops: first use + reuse), S3 (two root schemas sharing one added-type object using allOf + or, compiled concurrently), S3b (the same with a shared added type made of ruled literals only, also Example), S4 (shared compiled schema validated by 2 threads while a third creates, compiles and Example()s a private schema), S5 (enum rule / regex type first use), S6 (2 and 3 goroutines each creating, loading, compiling and using private schemas: only the global pools are shared), S7 (first use of a shared schema WITHOUT added types, valid and invalid: its first load is raced as well); ALL interleavings with <= 2 preemptions (3 threads: <= 1; thorough: 3 / 2) crossed with pool-answer deviations (<= 1). Oracle per execution: every call returns exactly its sequential result; every Once body ran once; no deadlock/livelock; the race detector (running as per-execution happens-before monitor: the scheduler's hand-off is invisible to it) reports nothing. states = distinct decision points visited, transitions = scheduling decisions taken, traces_validated_against_impl = executions (each one is an execution of the implementation).",
 		Workers:        func(string) int { return 16 },
 		Run:            run,
 		Replay:         replay,
 		RaceLog:        true,
-		QuickBudget:    120 * time.Second,
+		QuickBudget:    200 * time.Second,
 		ThoroughBudget: 14 * time.Minute,
 		Assumptions: []string{
 			"scheduling points at the library's synchronisation operations suffice because unsynchronised conflicting accesses between points are reported by the per-execution race monitor",
@@ -224,6 +224,45 @@ func sharedTypeScenario() scenario {
 	}}}
 }
 
+// sharedPlainTypeScenario: as S3, but the shared added-type object uses neither allOf nor or: none of
+// the recorded S3 findings applies to it, so every race or differing result here is reported in full.
+func sharedPlainTypeScenario() scenario {
+	const tText = "{\n  \"v\": 1, // {min: 0, max: 9}\n  \"s\": \"ab\", // {minLength: 1, maxLength: 3}\n  \"l\": [\n    1 // {type: \"integer\", min: 0}\n  ]\n}"
+	mk := func(name string, t *jschema.Schema) *jschema.Schema {
+		r := jschema.New(name, "{\n  \"t\": @T,\n  \"u\": [\n    @T\n  ]\n}")
+		r.AddType("@T", t)
+		return r
+	}
+	doc := `{"t":{"v":3,"s":"abc","l":[1,2]},"u":[{"v":10,"s":"a","l":[]}]}`
+	use := func(r *jschema.Schema) string {
+		ex, err := r.Example()
+		return errStr(r.Check()) + "|" + errStr(r.Validate(json.New("d", doc))) + "|" + string(ex) + errStr(err)
+	}
+	exp := func() [2]string {
+		t := jschema.New("@T", tText)
+		a, b := mk("r1", t), mk("r2", t)
+		return [2]string{use(a), use(b)}
+	}()
+	return scenario{name: "S3b shared plain added type", threads: 2, heavy: true, sc: sched.Scenario{Name: "S3b", Setup: func() ([]func(), func(*shim.Execution) string) {
+		t := jschema.New("@T", tText)
+		roots := []*jschema.Schema{mk("r1", t), mk("r2", t)}
+		res := make([]string, 2)
+		var bodies []func()
+		for i := range roots {
+			i := i
+			bodies = append(bodies, func() { res[i] = use(roots[i]) })
+		}
+		return bodies, func(*shim.Execution) string {
+			for i := range res {
+				if res[i] != exp[i] {
+					return fmt.Sprintf("root %d sharing the plain added type: Check|Validate|Example = %s, sequentially %s", i+1, res[i], exp[i])
+				}
+			}
+			return ""
+		}
+	}}}
+}
+
 func privateSchemaScenario() scenario {
 	const privText = "{\n  \"pppppppppppppppp\": [\n    1,\n    \"two\"\n  ],\n  \"q\": @str\n}"
 	privExp := func() string {
@@ -344,7 +383,7 @@ func enumRegexScenario() scenario {
 }
 
 func scenarios(thorough bool) []scenario {
-	out := []scenario{sharedTypeScenario(), privateSchemaScenario(), enumRegexScenario(), creatorsScenario(2), creatorsScenario(3)}
+	out := []scenario{sharedTypeScenario(), sharedPlainTypeScenario(), privateSchemaScenario(), enumRegexScenario(), creatorsScenario(2), creatorsScenario(3)}
 	// S1: 2 threads x 1 op, every ordered pair (uncompiled)
 	for a := range ops {
 		for b := a; b < len(ops); b++ {
